@@ -179,8 +179,13 @@ def more_requests(run, reqs, expect, descs):
         zs = [lo, hi, float(np.nextafter(lo, -np.inf)), float(np.nextafter(hi, np.inf)), lo - 5, hi + 5] + \
              [run.rng.uniform(lo - 10, hi + 10) for _ in range(5)]
         sca = [float(u.index(z)) for z in zs]
-        if [float(v) for v in u.index(np.array(zs))] != sca or any(u.gradient(z)[2] != 0 for z in zs):
+        arr_u = [float(v) for v in u.index(np.array(zs))]
+        if arr_u != sca or any(u.gradient(z)[2] != 0 for z in zs):
             ok = False; run.note_broken("correspondence: UniformIce scalar/array index disagree or gradient != 0")
+            badz = [z_ for z_, a_, s_ in zip(zs, arr_u, sca) if a_ != s_]
+            run.fail_input("uniform-scalar-array", {"n": n, "range": [lo, hi], "index_above": ab, "index_below": be, "depths": badz},
+                           observed=[a_ for a_, s_ in zip(arr_u, sca) if a_ != s_], expected=[s_ for a_, s_ in zip(arr_u, sca) if a_ != s_],
+                           what="UniformIce.index(array) != index(scalar) at depth(s) %s (or a non-zero gradient)" % badz[:3])
         opt = lambda v: "-" if v is None else str(fw.f2b(v))
         reqs.append("uindex %s %s %s %s" % (fw.fl([n, lo, hi]), opt(ab), opt(be), fw.fl(zs)))
         expect.append(sca); descs.append(("uniform", "uindex", tuple(zs)))
@@ -220,6 +225,7 @@ def search(run, deep):
     search_atten(run)
     search_clamp(run)
     search_layered(run)
+    search_forms(run)
     for rep in range(n):
         for name, ice in ices(run):
             lo, hi = ice.valid_range
@@ -317,6 +323,42 @@ def search_layered(run):
             if li.layer_at_depth(zi) is not l or float(li.index(zi)) != float(l.n):
                 run.fail_input("layered-inside", {"bounds": b, "z": zi}, observed=float(li.index(zi)), expected=float(l.n),
                                what="depth inside layer %d is not dispatched to it" % i)
+
+
+def search_forms(run):
+    """integer / float32 / 0-d / one-element forms of the arguments give the float64 answers"""
+    for name, ice in shipped():
+        lo, hi = ice.valid_range
+        zs_int = [int(lo), int(lo) + 7, -1000, -100, -1, int(hi)]
+        run.case((name, "forms-oracle"))
+        with np.errstate(all="ignore"):
+            ref = [float(ice.index(float(z))) for z in zs_int]
+            forms = {"python int": [float(ice.index(z)) for z in zs_int],
+                     "int64 array": [float(x) for x in ice.index(np.array(zs_int, dtype=np.int64))],
+                     "int32 array": [float(x) for x in ice.index(np.array(zs_int, dtype=np.int32))],
+                     "one-element arrays": [float(ice.index(np.array([float(z)]))[0]) for z in zs_int],
+                     "numpy float64 scalars": [float(ice.index(np.float64(z))) for z in zs_int]}
+            for form, got in forms.items():
+                if not fw.all_close(got, ref, 1e-12):
+                    run.fail_input("index-forms", {"ice": name, "form": form, "depths": zs_int}, observed=got, expected=ref,
+                                   what="index(%s) differs from the float64 evaluation" % form)
+            g32 = [float(x) for x in ice.index(np.array(zs_int, dtype=np.float32))]
+            if not fw.all_close(g32, ref, 1e-5):
+                run.fail_input("index-forms", {"ice": name, "form": "float32 array", "depths": zs_int}, observed=g32,
+                               expected=ref, what="index(float32 array) differs from the float64 evaluation")
+            fs_int = [100000000, 300000000, 1000000000, 2000000000]
+            zf = [float(z) for z in zs_int[1:-1]]
+            aref = np.asarray(ice.attenuation_length(np.array(zf), np.array(fs_int, dtype=float)), dtype=float)
+            for form, args in (("int depths/int freqs", (np.array(zs_int[1:-1]), np.array(fs_int))),
+                               ("python int scalars", None)):
+                if args is not None:
+                    got = np.asarray(ice.attenuation_length(*args), dtype=float)
+                else:
+                    got = np.array([[float(ice.attenuation_length(z, f)) for f in fs_int] for z in zs_int[1:-1]])
+                if got.shape != aref.shape or not np.allclose(got, aref, rtol=1e-12, atol=0):
+                    run.fail_input("atten-forms", {"ice": name, "form": form, "depths": zs_int[1:-1], "freqs": fs_int},
+                                   observed=got.tolist(), expected=aref.tolist(),
+                                   what="attenuation_length(%s) differs from the float64 evaluation" % form)
 
 
 def search_atten(run):
